@@ -142,7 +142,7 @@ Inductive symv :=
 
 Inductive reason :=
 | RNoOpset | RConstantNode | RControlFlow | RNonDet | RGraphInput | RNonConst | RShouldFoldFalse
-| RBlacklist | RLargeInput | REvalNone | RLargeOutput | RMultiOut | RUnmodelled.
+| RBlacklist | RLargeInput | REvalNone | RLargeOutput | RMultiOut | RUnmodelled | RRefAttr.
 
 Definition DT_INT64 : Z := 7.
 Definition DT_BOOL : Z := 9.
@@ -924,7 +924,14 @@ Section Fold.
     Variable strict : bool.                    (* check the freshness side conditions of the soundness theorem *)
     Variable cfg : config.
 
-    Definition decide (is_function : bool) st (n : node) : decision :=
+    (* an attribute given by reference to an attribute of the enclosing function (ir.Attr.is_ref()): its value is None here.
+       As read, process_node treats it as absent (partial evaluators, shape inference and the reference evaluator see the
+       operator default).  Repaired (skip_ref): the node is kept, right after the redirection of its inputs. *)
+    Definition has_ref_attr (n : node) : bool :=
+      existsb (fun kv => match snd kv with ARef _ => true | _ => false end) (n_attrs n).
+
+    Definition decide_variant (skip_ref : bool) (is_function : bool) st (n : node) : decision :=
+      if skip_ref && has_ref_attr n then DKeep RRefAttr st else
       match assoc (n_dom n) (c_opsets cfg) with
       | None => DKeep RNoOpset st
       | Some version =>
@@ -945,6 +952,8 @@ Section Fold.
             end
         else generic_fold cfg is_function st n
       end.
+    (* the variant the current source is in (Gen/FoldTables.v: skips_reference_attributes, read by the translator) *)
+    Definition decide := decide_variant skips_reference_attributes.
 
     (* side conditions (strict mode) *)
     Definition keep_ok st (n : node) : bool :=
